@@ -1287,10 +1287,30 @@ func main() {
 			fmt.Println("replay:", err)
 			os.Exit(3)
 		}
-		r.history(ops, "replay")
+		var hist []string
+		for _, l := range ops {
+			if b, ok := parseBurst(l); ok {
+				r.burst(b, "replay", 20)
+			} else {
+				hist = append(hist, l)
+			}
+		}
+		if len(hist) > 0 {
+			r.history(hist, "replay")
+		}
 	} else {
 		for i, ops := range hx.CorpusOps("C05") {
-			r.history(ops, fmt.Sprintf("corpus %d", i))
+			var hist []string
+			for _, l := range ops {
+				if b, ok := parseBurst(l); ok {
+					r.burst(b, fmt.Sprintf("corpus %d", i), 1)
+				} else {
+					hist = append(hist, l)
+				}
+			}
+			if len(hist) > 0 {
+				r.history(hist, fmt.Sprintf("corpus %d", i))
+			}
 			rp.Count("corpus-histories")
 		}
 		g := &gen{r: hx.NewRand(f.Seed), rep: rp, big: f.Thorough()}
@@ -1316,6 +1336,21 @@ func main() {
 			if r.failed >= 40 {
 				rp.Note("stopped generating after %d failing histories (of %d)", r.failed, i+1)
 				break
+			}
+		}
+	}
+
+	// concurrent creators of one absent key, on every backend
+	if f.Replay == "" && !r.stop {
+		br := hx.NewRand(f.Seed ^ 0xb0057)
+		memKeys, sqlKeys, rounds := 2000, 30, 1
+		if f.Thorough() {
+			memKeys, sqlKeys, rounds = 6000, 120, 3
+		}
+		for i := 0; i < rounds; i++ {
+			for _, store := range []string{"ord", "uno"} {
+				r.burst(burstCfg{"mem", store, hx.Pick(br, []int{4, 8, 16}), memKeys, br.U64() % 1000000}, "generated", 1)
+				r.burst(burstCfg{"sql", store, hx.Pick(br, []int{2, 4, 8}), sqlKeys, br.U64() % 1000000}, "generated", 1)
 			}
 		}
 	}
